@@ -25,6 +25,20 @@ def run(ctx):
     scan(ctx)
     bounded(ctx)
     linked_list(ctx)
+    structures(ctx)
+    compress_loop(ctx)
+    shrink_loops(ctx)
+    # streams span epochs: prologue, counting, constructor wiring, univariate guard
+    from . import common, c14, c01
+    common.lifecycle(ctx, ["ADWIN", "ADWINAccuracy"], clean_slate=False)
+    c14.univariate(ctx, "ADWIN")
+    c01.clause_recs_for(ctx, ["ADWIN", "ADWINAccuracy"])
+    # documented: delta outside [0, 1] is rejected at construction
+    ti = ctx.trace("ADWIN", "__init__")
+    rs = [e for e in ti.raises() if e.exc == "ValueError" and e.func.qualname == "ADWIN.__init__"]
+    inside = T.mk_and([T.mk_cmp("<=", const(0), P("delta")), T.mk_cmp("<=", P("delta"), const(1))])
+    ctx.ob("GRD", "ADWIN.__init__", "delta outside [0, 1] raises ValueError", len(rs) == 1 and q.has_guard(rs[0], T.mk_not(inside)),
+           "guards: %s" % ("; ".join(q.short(g, 80) for g in guards(rs[0])) if rs else "no raise"), rs[0] if rs else None)
 
 
 def accuracy(ctx):
@@ -383,3 +397,303 @@ def linked_list(ctx):
                 sidx = src[2].single_atom()
                 okc = sidx is not None and sidx[0] == "slice" and T.same(sidx[1], P("num")) and sidx[2] == T.NONE and dst[1] == T.NONE and T.same(dst[2], -P("num"))
     ctx.ob("FRM", "_BucketRow.shift", "the oldest buckets (front of the arrays) are the ones dropped", okc, "")
+
+
+# ---------------------------------------------------------------------------
+# Loop protocol of compression and of the split scan (induction form: initial value, step on the paths that reach the
+# end of the body, continuation test, guards of every break).  The evaluator summarises a loop as (pre-state, body
+# transition on loop variables); the rules below compare that summary with the documented traversal.
+
+def LV(lid, name):
+    return atom(("loopvar", lid, "$" + name))
+
+
+def _only_loopvar(t):
+    a = t.single_atom() if t is not None else None
+    if a is not None and a[0] == "loopvar" and a[2].startswith("$"):
+        return a[2][1:]
+    return None
+
+
+def _cur(attr, lid=None):
+    """Current value of a receiver attribute: entry value, or its havoc'd value inside loop lid."""
+    out = [A(attr)]
+    if lid:
+        out.append(atom(("loopvar", lid, attr)))
+    return out
+
+
+def _nest(tr):
+    """Loops of a trace ordered outermost first (by source containment)."""
+    import ast as _ast
+    items = list(tr.loops.items())
+    def depth(node):
+        return sum(1 for _l, L in items if L["node"] is not node and any(n is node for n in _ast.walk(L["node"])))
+    return sorted(items, key=lambda kv: depth(kv[1]["node"]))
+
+
+def compress_loop(ctx):
+    site = "ADWIN._compress_buckets"
+    tc = ctx.trace("ADWIN", "_compress_buckets")
+    loops = _nest(tc)
+    if not ctx.anchor(site, "one traversal loop", len(loops) == 1):
+        return
+    lid, L = loops[0]
+    rm = mcalls(tc, "remove_buckets", site)
+    ab = mcalls(tc, "add_bucket", site)
+    if not ctx.anchor(site, "merge = one add_bucket into the next row and one remove_buckets from the current row", len(rm) == 1 and len(ab) == 1):
+        return
+    row = _only_loopvar(rm[0].recv)
+    pw = [a for a in T.walk(ab[0].args[1]) if a[0] == "pow" and a[1] == const(2)] if len(ab[0].args) == 2 else []
+    pos = _only_loopvar(pw[0][2]) if pw else None
+    ctx.ob("PAIR", site, "the merged buckets are removed from the row the traversal stands on", row is not None, q.short(rm[0].recv, 80), rm[0])
+    ctx.ob("AGREE", site, "the bucket size of the merge is 2^(position of that row)", pos is not None, "", ab[0])
+    if row is None or pos is None:
+        return
+    R, Pn = LV(lid, row), LV(lid, pos)
+    head = [atom(("getattr", b, "head")) for b in _cur("_bucket_row_list")]
+    pre, end = L["pre"].locs, (L["body_end"].locs if L["body_end"] is not None else {})
+    ctx.ob("LOOP-init", site, "compression starts at the head row (newest, buckets of one element)", pre.get(row) in head, q.short(pre.get(row), 80) if pre.get(row) is not None else "unset")
+    ctx.ob("LOOP-init", site, "with row position 0", pre.get(pos) == const(0), q.short(pre.get(pos), 40) if pre.get(pos) is not None else "unset")
+    ctx.ob("LOOP-step", site, "the traversal moves to the next (older) row", end.get(row) == atom(("getattr", R, "next_bucket")), q.short(end.get(row), 80) if end.get(row) is not None else "no path reaches the end of the body")
+    ctx.ob("LOOP-step", site, "and the position grows by one with it", end.get(pos) is not None and T.same(end[pos], Pn + const(1)), q.short(end.get(pos), 60) if end.get(pos) is not None else "")
+    tests = [e for e in tc.of("test") if e.node is L["node"]]
+    ctx.ob("LOOP-test", site, "the traversal continues while there is a row", len(tests) == 1 and tests[0].cond == T.mk_cmp("!=", R, T.NONE),
+           q.short(tests[0].cond, 80) if tests else "")
+    full = T.mk_cmp("==", atom(("getattr", R, "bucket_count")), A("max_buckets") + const(1))
+    nxt = atom(("getattr", R, "next_bucket"))
+    for e, what in ((ab[0], "the two oldest buckets are merged into the next row"), (rm[0], "and removed from this row")):
+        ctx.ob("GRD", site, what + " exactly when the row holds max_buckets + 1 buckets", q.has_guard(e, full),
+               "guards: %s" % "; ".join(q.short(g, 70) for g in guards(e)[1:]), e)
+    ctx.ob("PAIR", site, "the merged bucket goes to the row after the current one", ab[0].recv == nxt, q.short(ab[0].recv, 80), ab[0])
+    ctx.ob("FRM", site, "two buckets are removed per merge", rm[0].args == (const(2),), "", rm[0])
+    ctx.ob("ORD", site, "the merged bucket is stored before the two buckets are dropped", ab[0].seq < rm[0].seq, "", rm[0])
+    # a missing next row is created first, and the row variable is read again afterwards
+    at = mcalls(tc, "append_tail", site)
+    ctx.ob("ROLE", site, "a missing next row is created", len(at) == 1, "")
+    for e in at:
+        ctx.ob("GRD", site, "a row is appended exactly when the current row has no successor", q.has_guard(e, T.mk_cmp("==", nxt, T.NONE)) and q.has_guard(e, full), "", e)
+        import ast as _ast
+        rn = ab[0].node.func.value.id if isinstance(ab[0].node.func, _ast.Attribute) and isinstance(ab[0].node.func.value, _ast.Name) else None
+        rd = [x for x in tc.of("local") if x.name == rn and e.seq < x.seq < ab[0].seq and len(x.pc) >= len(e.pc) and x.pc[: len(e.pc)] == e.pc]
+        ctx.ob("ORD", site, "the successor is read again after the row was appended", rn is None or bool(rd),
+               "the variable holding the next row still holds None on the path that appended it", e)
+    # breaks: only when this row is not full, or after a merge that left the next row within bounds
+    brk = [e for e in tc.of("break") if e.func.qualname == site]
+    within = T.mk_cmp("<=", atom(("getattr", nxt, "bucket_count")), A("max_buckets"))
+    for e in brk:
+        ok = q.has_guard(e, T.mk_not(full)) or (q.has_guard(e, full) and q.has_guard(e, within))
+        ctx.ob("BRK", site, "the cascade stops only at a row that is not full or after a merge that did not fill the next row", ok,
+               "guards: %s" % "; ".join(q.short(g, 70) for g in guards(e)[1:]), e)
+    ctx.floor("compress loop exits examined", len(brk) + 1, 2)
+
+
+def shrink_loops(ctx):
+    site = "ADWIN._shrink_window"
+    tr = ctx.trace("ADWIN", "_shrink_window")
+    loops = _nest(tr)
+    if not ctx.anchor(site, "restart loop > row traversal > bucket loop", len(loops) == 3):
+        return
+    (l1, L1), (l2, L2), (l3, L3) = loops
+    ce = [e for e in q.find_calls(tr, "ADWIN._check_epsilon") if e.func.qualname == site]
+    if len(ce) != 1 or len(ce[0].args) != 4:
+        return  # reported by scan()
+    # roles: restart flag = the variable the outer loop tests; exit flag / row from the traversal test
+    t1 = [e for e in tr.of("test") if e.node is L1["node"]]
+    flag = _only_loopvar(t1[0].cond) if len(t1) == 1 else None
+    ctx.ob("LOOP-test", site, "the scan is repeated while the restart flag is set", flag is not None, q.short(t1[0].cond, 80) if t1 else "")
+    t2 = [e for e in tr.of("test") if e.node is L2["node"]]
+    ex = rw = None
+    if len(t2) == 1:
+        for cj in q.conjuncts(t2[0].cond):
+            a = cj.single_atom()
+            if a is not None and a[0] == "not" and _only_loopvar(a[1]):
+                ex = _only_loopvar(a[1])
+            c = q.is_cmp(cj)
+            if c is not None and c[1] == "!=" and len(list(T.atoms_of(cj, "loopvar"))) == 1:
+                nm = _only_loopvar(atom(list(T.atoms_of(cj, "loopvar"))[0]))
+                if nm and cj == T.mk_cmp("!=", LV(l2, nm), T.NONE):
+                    rw = nm
+    ok = ex is not None and rw is not None and len(q.conjuncts(t2[0].cond)) == 2
+    ctx.ob("LOOP-test", site, "rows are visited while the scan has not finished and there is a row", ok, q.short(t2[0].cond, 120) if t2 else "")
+    # bucket size of the scan
+    names = []
+    for a_ in ce[0].args:
+        ns = sorted({m_[0][0][2][1:] for m_, cf in a_.num if len(m_) == 1 and m_[0][1] == 1 and m_[0][0][0] == "loopvar" and m_[0][0][2].startswith("$") and cf == 1})
+        names.append(ns[0] if len(ns) == 1 else None)
+    if None in names or len(set(names)) != 4 or flag is None or not ok:
+        return
+    N0, T0, N1, T1 = names
+    e3 = L3["body_end"].locs if L3["body_end"] is not None else {}
+    inc = (e3.get(N0) - LV(l3, N0)) if e3.get(N0) is not None else None
+    ia = inc.single_atom() if inc is not None else None
+    ps = _only_loopvar(ia[2]) if ia is not None and ia[0] == "pow" and ia[1] == const(2) else None
+    if not ctx.anchor(site, "the scan adds 2^position elements per bucket", ps is not None):
+        return
+    # ---- start of one scan (state at the head of the row traversal)
+    p2 = L2["pre"].locs
+    lst = _cur("_bucket_row_list", l1)
+    want = [
+        (flag, [T.FALSE], "the restart flag is cleared when a scan starts"),
+        (ex, [T.FALSE], "the finished flag is cleared when a scan starts"),
+        (N0, [const(0)], "the older part starts empty (size)"),
+        (T0, [const(0)], "the older part starts empty (total)"),
+        (N1, _cur("_window_size", l1), "the newer part starts as the whole current window (size)"),
+        (T1, _cur("_curr_total", l1), "the newer part starts as the whole current window (total)"),
+        (rw, [atom(("getattr", b, "tail")) for b in lst], "the scan starts at the tail row (oldest buckets)"),
+        (ps, [atom(("getattr", b, "size")) - const(1) for b in lst], "whose position is rows - 1"),
+    ]
+    for nm, vals, what in want:
+        got = p2.get(nm)
+        ctx.ob("LOOP-init", site, what, got is not None and any(got == v or T.same(got, v) for v in vals), q.short(got, 80) if got is not None else "unset")
+    ctx.ob("LOOP-init", site, "the first scan is unconditional", L1["pre"].locs.get(flag) == T.TRUE, "")
+    # ---- row traversal step
+    e2 = L2["body_end"].locs if L2["body_end"] is not None else {}
+    ctx.ob("LOOP-step", site, "the traversal moves to the previous (younger) row", e2.get(rw) == atom(("getattr", LV(l2, rw), "prev_bucket")), q.short(e2.get(rw), 80) if e2.get(rw) is not None else "")
+    ctx.ob("LOOP-step", site, "and the position decreases by one with it", e2.get(ps) is not None and T.same(e2[ps], LV(l2, ps) - const(1)), q.short(e2.get(ps), 80) if e2.get(ps) is not None else "")
+    # ---- bucket loop
+    cnt = atom(("getattr", LV(l2, rw), "bucket_count"))
+    it = L3["iter"]
+    ia_ = it.single_atom() if it is not None else None
+    ctx.ob("LOOP-test", site, "every bucket of the row is visited, oldest first", ia_ is not None and ia_[0] == "call" and ia_[1] == "range" and tuple(ia_[2]) == (cnt,),
+           q.short(it, 80) if it is not None else "")
+    idx = atom(("idx", l3))
+    bt = atom(("sub", atom(("getattr", LV(l2, rw), "bucket_totals")), idx))
+    n_inc = atom(("pow", const(2), LV(l2, ps)))
+    n0, t0, n1, t1_ = LV(l3, N0) + n_inc, LV(l3, T0) + bt, LV(l3, N1) - n_inc, LV(l3, T1) - bt
+    for nm, w, what in ((N0, n0, "size of the older part grows by the bucket size"), (T0, t0, "total of the older part grows by the bucket total"),
+                        (N1, n1, "size of the newer part shrinks by the bucket size"), (T1, t1_, "total of the newer part shrinks by the same bucket total")):
+        got = e3.get(nm)
+        ctx.ob("LOOP-step", site, what, got is not None and T.same(got, w), q.short(got, 120) if got is not None else "")
+    ctx.ob("AGREE", site, "the split test receives (older size, older total, newer size, newer total) after this bucket was moved",
+           all(T.same(a, b) for a, b in zip(ce[0].args, (n0, t0, n1, t1_))), "", ce[0])
+    # ---- exits of the bucket loop
+    brk = [e for e in tr.of("break") if e.func.qualname == site]
+    ds = [e for e in tr.stores("_drift_state") if e.value == const("drift") and q.stack_has(e, site)]
+    ctx.ob("ROLE", site, "the scan stores 'drift'", len(ds) == 1, "found %d" % len(ds))
+    ret = None
+    for x in tr.events[ce[0].seq:]:
+        if x.kind == "exit" and x.d.get("fi") is not None and x.fi.name == "_check_epsilon":
+            ret = x.d.get("value")
+            break
+    sub_t = A("subwindow_size_thresh")
+    cut = [T.mk_cmp(">=", n0, sub_t), T.mk_cmp(">=", n1, sub_t)] + ([ret] if ret is not None else [])
+    youngest = [T.mk_cmp("==", LV(l2, ps), const(0)), T.mk_cmp("==", idx, cnt - const(1))]
+    if ctx.anchor(site, "the split test's verdict is available", ret is not None):
+        for e in ds:
+            se = _site(tr, e)
+            miss = [g for g in cut if not q.has_guard(se, g)]
+            ctx.ob("GRD", site, "drift is stored exactly under: both parts >= subwindow_size_thresh and the split test fires", not miss,
+                   "missing: %s" % "; ".join(q.short(g, 80) for g in miss), se)
+            ctx.ob("GRD", site, "and not at the youngest bucket (nothing newer to compare with)", q.has_guard(se, T.mk_not(T.mk_and(youngest))) or
+                   any(q.has_guard(se, T.mk_not(y)) for y in youngest), "", se)
+    n_a = n_b = 0
+    for e in brk:
+        locs = e.d.get("locs", {})
+        if all(q.has_guard(e, y) for y in youngest):
+            n_a += 1
+            ctx.ob("BRK", site, "reaching the youngest bucket finishes the scan", locs.get(ex) == T.TRUE and locs.get(flag) == LV(l3, flag),
+                   "finished flag %s, restart flag %s" % (q.short(locs.get(ex), 30), q.short(locs.get(flag), 30)), e)
+        elif all(q.has_guard(e, g) for g in cut):
+            n_b += 1
+            rl = [x for x in q.find_calls(tr, "ADWIN._remove_last") if x.func.qualname == site]
+            removed = None
+            for x in tr.events[rl[0].seq:] if rl else ():
+                if x.kind == "exit" and x.d.get("fi") is not None and x.fi.name == "_remove_last":
+                    removed = x.d.get("value")
+                    break
+            ctx.ob("BRK", site, "a cut finishes this scan and requests another one", locs.get(ex) == T.TRUE and locs.get(flag) == T.TRUE, "", e)
+            ctx.ob("FRM", site, "the dropped elements leave the older part", removed is not None and locs.get(N0) is not None and T.same(locs[N0], n0 - removed),
+                   q.short(locs.get(N0), 120) if locs.get(N0) is not None else "", e)
+            wcur = [A("_window_size")] + [atom(("loopvar", l, "_window_size")) for l in (l1, l2, l3)]
+            ws = [g for g in guards(e) if any(g == T.mk_cmp(">", w, const(0)) for w in wcur)]
+            ctx.ob("GRD", site, "a bucket is dropped exactly when the window is non-empty", bool(ws),
+                   "guards: %s" % "; ".join(q.short(g, 60) for g in guards(e)[-3:]), e)
+        else:
+            ctx.ob("BRK", site, "the bucket loop is left only at the youngest bucket or after a cut", False,
+                   "guards: %s" % "; ".join(q.short(g, 60) for g in guards(e)[-4:]), e)
+    ctx.ob("ROLE", site, "the scan ends at the youngest bucket", n_a == 1, "found %d such exits" % n_a)
+    ctx.ob("ROLE", site, "a cut restarts the scan", n_b == 1, "found %d such exits" % n_b)
+    # the restart request is made wherever drift is stored (also when nothing can be dropped)
+    for e in ds:
+        later = [x for x in tr.of("local") if x.name == flag and x.value == T.TRUE and x.seq > ce[0].seq and x.func.qualname == site]
+        se = _site(tr, e)
+        ok = any(set(map(id, x.pc)) == set(map(id, se.pc)) for x in later)
+        ctx.ob("PAIR", site, "storing drift requests another scan", ok, "", se)
+    # entry condition of the whole procedure
+    lp = [e for e in tr.of("loop") if e.node is L1["node"]]
+    if lp:
+        g1 = T.mk_cmp("==", atom(("mod", A("_total_samples"), A("new_sample_thresh"))), const(0))
+        g2 = T.mk_cmp(">", A("_window_size"), A("window_size_thresh"))
+        ctx.ob("GRD", site, "cuts are looked for every new_sample_thresh samples once the window exceeds window_size_thresh",
+               q.has_guard(lp[0], g1) and q.has_guard(lp[0], g2), "guards: %s" % "; ".join(q.short(g, 70) for g in guards(lp[0])), lp[0])
+
+
+def _site(tr, ev):
+    from .c01 import _site_pc_ev
+    return _site_pc_ev(tr, ev)
+
+
+def structures(ctx):
+    """Final states of the small list / row methods against their documented effect."""
+    prog = ctx.prog
+    lst, row = prog.cls("_BucketRowList"), prog.cls("_BucketRow")
+    mb = A("max_buckets")
+    def new(**kw):
+        return atom(("new", "_BucketRow", (mb,), tuple(sorted(kw.items()))))
+    def fin(ci, m):
+        t = Evaluator(prog, ci).run(prog.lookup(ci, m))
+        return t, (t.final.attrs if t.final is not None else {})
+    def tab(site, attrs, table):
+        for k, w in table.items():
+            got = attrs.get(k)
+            ctx.ob("TAB-struct", site, "%s after the call" % k, got is not None and (got == w or T.same(got, w)),
+                   "is %s ; documented %s" % (q.short(got, 120) if got is not None else "unchanged/unset", q.short(w, 120)))
+    isnone = lambda t: T.mk_cmp("==", t, T.NONE)
+    # append_head
+    t, a = fin(lst, "append_head")
+    nh = new(next_bucket=A("head"))
+    tab("_BucketRowList.append_head", a, {"head": nh, "size": A("size") + const(1), "tail": T.mk_ite(isnone(A("tail")), nh, A("tail"))})
+    bk = [e for e in t.mutations("head") if e.how == "setattr" and e.path == (("attr", "prev_bucket"),)]
+    ctx.ob("PAIR", "_BucketRowList.append_head", "the old head points back to the new head", len(bk) == 1 and bk[0].value == nh and q.has_guard(bk[0], T.mk_cmp("!=", A("head"), T.NONE)), "")
+    # append_tail
+    t, a = fin(lst, "append_tail")
+    nt = new(prev_bucket=A("tail"))
+    tab("_BucketRowList.append_tail", a, {"tail": nt, "size": A("size") + const(1), "head": T.mk_ite(isnone(A("head")), nt, A("head"))})
+    # __init__ : one empty row that is both head and tail
+    t = Evaluator(prog, lst).run(prog.lookup(lst, "__init__"))
+    a = t.final.attrs if t.final is not None else {}
+    first = atom(("new", "_BucketRow", (P("max_buckets"),), (("next_bucket", T.NONE),)))
+    tab("_BucketRowList.__init__", a, {"max_buckets": P("max_buckets"), "size": const(1), "head": first, "tail": first})
+    # row constructor
+    t = Evaluator(prog, row).run(prog.lookup(row, "__init__"))
+    a = t.final.attrs if t.final is not None else {}
+    tab("_BucketRow.__init__", a, {"bucket_count": const(0), "max_buckets": P("max_buckets"), "prev_bucket": P("prev_bucket"), "next_bucket": P("next_bucket")})
+    lm = [e for e in t.of("localmut") if e.how == "setattr"]
+    for nm, other in (("next_bucket", "prev_bucket"), ("prev_bucket", "next_bucket")):
+        es = [e for e in lm if e.name == nm and e.path == (("attr", other),)]
+        ctx.ob("PAIR", "_BucketRow.__init__", "the %s neighbour is linked back only when it exists" % nm.split("_")[0],
+               len(es) == 1 and q.has_guard(es[0], T.mk_cmp("!=", P(nm), T.NONE)), "")
+    # remove_buckets: both arrays shifted by the same amount
+    t = Evaluator(prog, row).run(prog.lookup(row, "remove_buckets"))
+    sh = [e for e in q.find_calls(t, "_BucketRow.shift")]
+    okk = len(sh) == 2 and {q.short(e.args[0], 40) for e in sh} == {q.short(A("bucket_totals"), 40), q.short(A("bucket_variances"), 40)} and all(e.args[1] == P("num_buckets") for e in sh)
+    ctx.ob("AGREE", "_BucketRow.remove_buckets", "totals and variances are shifted by the same number of buckets", okk, "")
+    for arr in ("bucket_totals", "bucket_variances"):
+        v = t.final.attrs.get(arr) if t.final is not None else None
+        ctx.ob("FRM", "_BucketRow.remove_buckets", "%s is replaced by its shifted copy" % arr,
+               v is not None and T.mentions(v, lambda z: z[0] == "sub" and z[1] == A(arr)) and not T.mentions(v, lambda z: z[0] == "sub" and z[1] != A(arr) and z[1].single_atom() and z[1].single_atom()[0] == "attr"), "")
+    # detector construction
+    ti = ctx.trace("ADWIN", "__init__")
+    a = ti.final.attrs if ti.final is not None else {}
+    tab("ADWIN.__init__", a, {"_curr_total": const(0), "_curr_variance": const(0), "_window_size": const(0)})
+    # removal of the last bucket empties the tail row -> the row is unlinked
+    trm = ctx.trace("ADWIN", "_remove_last")
+    rt = mcalls(trm, "remove_tail")
+    tail = [atom(("getattr", A("_bucket_row_list"), "tail"))]
+    okk = len(rt) == 1 and any(q.has_guard(rt[0], T.mk_cmp("==", atom(("getattr", tl, "bucket_count")), const(0))) for tl in tail)
+    ctx.ob("GRD", "ADWIN._remove_last", "the tail row is unlinked exactly when it became empty", okk,
+           "guards: %s" % ("; ".join(q.short(g, 80) for g in guards(rt[0])) if rt else "no remove_tail call"), rt[0] if rt else None)
+    rb = mcalls(trm, "remove_buckets")
+    if rb and rt:
+        ctx.ob("ORD", "ADWIN._remove_last", "the bucket is dropped before the row is tested for emptiness", rb[0].seq < rt[0].seq, "", rt[0])
